@@ -234,11 +234,20 @@ func (p *Prog) reachGen(fn *ssa.Function, from ssa.Instruction, startBlock *ssa.
 	if len(fn.Blocks) == 0 {
 		return nil, nil, false
 	}
+	type frame struct {
+		b    *ssa.BasicBlock // block of the call in the caller
+		i    int             // index at which to resume
+		fn   *ssa.Function   // the callee being explored
+		next *frame
+		dep  int
+		sig  string
+	}
 	type state struct {
 		b      *ssa.BasicBlock
 		i      int
 		f      facts
 		parent *state
+		stack  *frame
 	}
 	var st *state
 	if startBlock != nil {
@@ -258,6 +267,12 @@ func (p *Prog) reachGen(fn *ssa.Function, from ssa.Instruction, startBlock *ssa.
 		}
 		return out
 	}
+	sigOf := func(fr *frame) string {
+		if fr == nil {
+			return ""
+		}
+		return fr.sig
+	}
 	seen := map[string]bool{}
 	queue := []*state{st}
 	n := 0
@@ -268,12 +283,69 @@ func (p *Prog) reachGen(fn *ssa.Function, from ssa.Instruction, startBlock *ssa.
 		for i := s.i; i < len(s.b.Instrs); i++ {
 			in := s.b.Instrs[i]
 			p.curFacts = s.f
+			if _, isRet := in.(*ssa.Return); isRet && s.stack != nil {
+				// return from a helper explored in line: resume in the caller
+				fr := s.stack
+				key := fmt.Sprintf("%s>%p|%d|%d|%s", sigOf(fr.next), fr.b.Parent(), fr.b.Index, fr.i, s.f.sig())
+				if !seen[key] {
+					seen[key] = true
+					n++
+					queue = append(queue, &state{b: fr.b, i: fr.i, f: s.f, parent: s, stack: fr.next})
+				}
+				blocked = true
+				break
+			}
+			if _, isRet := in.(*ssa.Return); isRet && s.stack == nil && !p.noDescend && p.isPlainHelper(in.Parent()) {
+				// the search started inside a helper that is analysed as in-line code: its
+				// return is not an exit, the path goes on behind every call of the helper
+				pcs := p.plainCallers(in.Parent())
+				if len(pcs) < len(p.callers[in.Parent()]) {
+					// also started by go / defer: there the return is a real exit
+					if target(in) {
+						return in, trail(s), true
+					}
+				}
+				for _, cs := range pcs {
+					key := fmt.Sprintf("ret>%p|%s", cs, s.f.sig())
+					if !seen[key] {
+						seen[key] = true
+						n++
+						queue = append(queue, &state{b: cs.Block(), i: p.idx[cs] + 1, f: s.f, parent: s})
+					}
+				}
+				blocked = true
+				break
+			}
 			if target(in) {
 				return in, trail(s), true
 			}
 			if avoid(in) {
 				blocked = true
 				break
+			}
+			if !p.noDescend {
+				if g := p.descendInto(in); g != nil {
+					dep := 0
+					onStack := g == fn
+					for fr := s.stack; fr != nil; fr = fr.next {
+						dep++
+						if fr.fn == g {
+							onStack = true
+						}
+					}
+					if dep < 3 && !onStack {
+						nf := &frame{b: s.b, i: i + 1, fn: g, next: s.stack, dep: dep + 1}
+						nf.sig = fmt.Sprintf("%s>%p:%d", sigOf(s.stack), in, dep)
+						key := fmt.Sprintf("%s|enter|%s", nf.sig, s.f.sig())
+						if !seen[key] {
+							seen[key] = true
+							n++
+							queue = append(queue, &state{b: g.Blocks[0], f: s.f, parent: s, stack: nf})
+						}
+						blocked = true
+						break
+					}
+				}
 			}
 		}
 		if blocked {
@@ -285,9 +357,9 @@ func (p *Prog) reachGen(fn *ssa.Function, from ssa.Instruction, startBlock *ssa.
 				continue
 			}
 			nf := enterBlock(fs[j], s.b, sb)
-			key := fmt.Sprintf("%d|%s", sb.Index, nf.sig())
+			key := fmt.Sprintf("%s|%p|%d|%s", sigOf(s.stack), sb.Parent(), sb.Index, nf.sig())
 			if n > maxStates {
-				key = fmt.Sprintf("%d|", sb.Index)
+				key = fmt.Sprintf("%s|%p|%d|", sigOf(s.stack), sb.Parent(), sb.Index)
 				nf = facts{}
 			}
 			if seen[key] {
@@ -295,7 +367,7 @@ func (p *Prog) reachGen(fn *ssa.Function, from ssa.Instruction, startBlock *ssa.
 			}
 			seen[key] = true
 			n++
-			queue = append(queue, &state{b: sb, f: nf, parent: s})
+			queue = append(queue, &state{b: sb, f: nf, parent: s, stack: s.stack})
 		}
 	}
 	return nil, nil, false
@@ -354,7 +426,7 @@ func (p *Prog) reachFrom(fn *ssa.Function, from ssa.Instruction, target, avoid i
 
 // canReach: is `to` reachable from just after `from` avoiding avoid?
 func (p *Prog) canReach(from, to ssa.Instruction, avoid ipred) bool {
-	if from.Parent() != to.Parent() {
+	if from.Parent() != to.Parent() && !p.isPlainHelper(from.Parent()) && !p.isPlainHelper(to.Parent()) {
 		return false
 	}
 	_, _, ok := p.reachFrom(from.Parent(), from, func(in ssa.Instruction) bool { return in == to }, avoid)
@@ -388,7 +460,27 @@ type condMatch func(cond ssa.Value) (matches bool, holdsOnTrue bool)
 func (p *Prog) guardEdges(fn *ssa.Function, m condMatch) (map[edge]bool, int) {
 	cut := map[edge]bool{}
 	n := 0
-	for _, b := range fn.Blocks {
+	var blocks []*ssa.BasicBlock
+	blocks = append(blocks, fn.Blocks...)
+	if !p.noDescend {
+		// plain helpers called from fn are part of it
+		seenH := map[*ssa.Function]bool{fn: true}
+		work := []*ssa.Function{fn}
+		for d := 0; d < 3 && len(work) > 0; d++ {
+			var next []*ssa.Function
+			for _, g := range work {
+				eachInstrLocal(g, func(in ssa.Instruction) {
+					if h := p.descendInto(in); h != nil && !seenH[h] {
+						seenH[h] = true
+						blocks = append(blocks, h.Blocks...)
+						next = append(next, h)
+					}
+				})
+			}
+			work = next
+		}
+	}
+	for _, b := range blocks {
 		if len(b.Instrs) == 0 {
 			continue
 		}
@@ -398,6 +490,17 @@ func (p *Prog) guardEdges(fn *ssa.Function, m condMatch) (map[edge]bool, int) {
 		}
 		cond, neg := stripNot(iff.Cond)
 		ok, onTrue := m(cond)
+		if !ok {
+			// a predicate helper: `if w.isClosed()` where isClosed returns the recognised test
+			if body, neg2, isPred := p.predicateBody(cond); isPred {
+				if ok2, onTrue2 := m(body); ok2 {
+					ok, onTrue = true, onTrue2
+					if neg2 {
+						onTrue = !onTrue
+					}
+				}
+			}
+		}
 		if !ok {
 			continue
 		}
@@ -417,12 +520,38 @@ func (p *Prog) guardEdges(fn *ssa.Function, m condMatch) (map[edge]bool, int) {
 // guardedBy reports whether every entry→target path crosses an edge on which
 // the predicate recognised by m holds. It returns the number of matching tests.
 func (p *Prog) guardedBy(target ssa.Instruction, m condMatch) (bool, int) {
+	return p.guardedByDepth(target, m, 0)
+}
+
+func (p *Prog) guardedByDepth(target ssa.Instruction, m condMatch, depth int) (bool, int) {
 	fn := target.Parent()
 	cut, n := p.guardEdges(fn, m)
-	if n == 0 {
-		return false, 0
+	if n > 0 {
+		save := p.noDescend
+		p.noDescend = true
+		reach := p.reachableCutting(fn, target, cut)
+		p.noDescend = save
+		if !reach {
+			return true, n
+		}
 	}
-	return !p.reachableCutting(fn, target, cut), n
+	// a helper is guarded when every one of its call sites is
+	if depth < 3 && p.isHelper(fn) {
+		all := true
+		tot := n
+		for _, cs := range p.callers[fn] {
+			g, k := p.guardedByDepth(cs.(ssa.Instruction), m, depth+1)
+			tot += k
+			if !g {
+				all = false
+			}
+		}
+		if all {
+			return true, tot
+		}
+		return false, tot
+	}
+	return false, n
 }
 
 func stripNot(v ssa.Value) (ssa.Value, bool) {
@@ -439,7 +568,47 @@ func stripNot(v ssa.Value) (ssa.Value, bool) {
 
 // dominatesInstr reports whether a executes before b on every path to b.
 func (p *Prog) dominatesInstr(a, b ssa.Instruction) bool {
+	return p.dominatesDepth(a, b, 0)
+}
+
+func (p *Prog) dominatesDepth(a, b ssa.Instruction, depth int) bool {
 	if a.Parent() != b.Parent() {
+		if depth >= 3 {
+			return false
+		}
+		// b lives in a helper: a must precede every call of that helper
+		if fb := b.Parent(); p.isHelper(fb) {
+			all := true
+			for _, cs := range p.callers[fb] {
+				if !p.dominatesDepth(a, cs.(ssa.Instruction), depth+1) {
+					all = false
+				}
+			}
+			if all {
+				return true
+			}
+		}
+		// a lives in a helper that b's function calls before b, and a is on every path through the helper
+		if fa := a.Parent(); p.isHelper(fa) {
+			onAll := true
+			for _, blk := range fa.Blocks {
+				if len(blk.Instrs) == 0 {
+					continue
+				}
+				if _, isRet := blk.Instrs[len(blk.Instrs)-1].(*ssa.Return); isRet {
+					if !(a.Block() == blk || a.Block().Dominates(blk)) {
+						onAll = false
+					}
+				}
+			}
+			if onAll {
+				for _, cs := range p.plainCallers(fa) {
+					if p.dominatesDepth(cs, b, depth+1) {
+						return true
+					}
+				}
+			}
+		}
 		return false
 	}
 	if a.Block() == b.Block() {
@@ -514,7 +683,10 @@ func (p *Prog) viaCallee(eff ipred, cutFor func(fn *ssa.Function) map[edge]bool)
 		if cutFor != nil {
 			cut = cutFor(fn)
 		}
+		save := p.noDescend
+		p.noDescend = true
 		_, _, miss := p.reachCut(fn, nil, isReturnLike, lifted, cut)
+		p.noDescend = save
 		if miss {
 			memo[fn] = 3
 		} else {
@@ -534,4 +706,37 @@ func (p *Prog) viaCallee(eff ipred, cutFor func(fn *ssa.Function) map[edge]bool)
 		return false
 	}
 	return lifted
+}
+
+// descendInto: the path search explores a helper in line (virtual inlining) when the
+// instruction is a plain call to one; nil otherwise.
+func (p *Prog) descendInto(in ssa.Instruction) *ssa.Function {
+	c, ok := in.(*ssa.Call)
+	if !ok {
+		return nil
+	}
+	g := c.Common().StaticCallee()
+	if g == nil || !p.isPlainHelper(g) {
+		return nil
+	}
+	return g
+}
+
+// predicateBody: v is a call to a plain helper that consists of a single block returning one
+// boolean expression; the expression (with its negations stripped) is returned.
+func (p *Prog) predicateBody(v ssa.Value) (ssa.Value, bool, bool) {
+	c, ok := v.(*ssa.Call)
+	if !ok {
+		return nil, false, false
+	}
+	g := c.Common().StaticCallee()
+	if g == nil || !p.isPlainHelper(g) || len(g.Blocks) != 1 {
+		return nil, false, false
+	}
+	ret, ok := g.Blocks[0].Instrs[len(g.Blocks[0].Instrs)-1].(*ssa.Return)
+	if !ok || len(ret.Results) != 1 {
+		return nil, false, false
+	}
+	body, neg := stripNot(ret.Results[0])
+	return body, neg, true
 }
